@@ -139,8 +139,164 @@ pub fn hot_cases() -> Vec<HotCase> {
     v
 }
 
+
+// ------------------------------------------------------------------ every value of every plain integer / time field
+/// A plain integer or time field (u8 / u16 / i16 / u32 / i32 / duration, not an enumerant, flag word or count) at `off` of a
+/// conformant frame: every wire value is meaningful, so decoding must succeed and writing the packet back must reproduce
+/// the bytes. 8- and 16-bit fields are swept completely, 32-bit fields over round values (decimal and binary, whole
+/// seconds / minutes / hours in ms and 1/100 s) with their neighbours.
+#[derive(Clone, Debug)]
+pub struct IntCase {
+    pub field: usize,
+    pub compressed: bool,
+    pub value: u32,
+}
+
+/// (variant, path, offset in the frame, width, element path to instantiate when the field lives in a counted collection)
+pub fn int_fields() -> &'static Vec<(String, String, usize, usize, Option<String>)> {
+    static F: std::sync::OnceLock<Vec<(String, String, usize, usize, Option<String>)>> = std::sync::OnceLock::new();
+    F.get_or_init(|| {
+        use crate::refs::spec::{Field, Kind};
+        fn walk(fields: &[Field], base: usize, prefix: &str, variant: &str, elem: Option<String>, out: &mut Vec<(String, String, usize, usize, Option<String>)>) {
+            for f in fields {
+                let path = if prefix.is_empty() { f.path.clone() } else if f.path == "." { prefix.to_string() } else { format!("{prefix}.{}", f.path) };
+                let off = base + f.off;
+                let width = match &f.kind {
+                    Kind::U8 { max: None } | Kind::Id(_) => 1,
+                    Kind::U16 | Kind::I16 => 2,
+                    Kind::U32 | Kind::I32 => 4,
+                    Kind::Dur { bytes, .. } => *bytes,
+                    Kind::Struct { fields } => {
+                        walk(fields, off, &path, variant, elem.clone(), out);
+                        0
+                    },
+                    Kind::Array { fields, .. } => {
+                        walk(fields, off, &format!("{path}[0]"), variant, elem.clone(), out);
+                        0
+                    },
+                    Kind::Counted { fields, .. } => {
+                        walk(fields, off, &format!("{path}[0]"), variant, Some(format!("{path}[0]")), out);
+                        0
+                    },
+                    _ => 0,
+                };
+                if width > 0 {
+                    out.push((variant.to_string(), path, off, width, elem.clone()));
+                }
+            }
+        }
+        let mut out = vec![];
+        for p in &spec().packets {
+            walk(&p.fields, 0, "", &p.variant, None, &mut out);
+        }
+        out
+    })
+}
+
+pub struct IntSweep;
+impl Part for IntSweep {
+    type Case = IntCase;
+    fn name(&self) -> &'static str {
+        "integer-field-sweeps"
+    }
+    fn check(&self, c: &IntCase, ev: &mut Local) -> Result<(), Fail> {
+        let (variant, path, off, width, elem) = &int_fields()[c.field];
+        let mode = if c.compressed { Mode::Compressed } else { Mode::Uncompressed };
+        let p = spec().packet(variant).unwrap();
+        // base: everything zero / first enumerant; a counted collection holds one element
+        let base = match elem {
+            Some(e) => {
+                let t = image::targets(p);
+                match t.iter().find(|(tp, _)| tp.starts_with(e.as_str())) {
+                    Some((tp, _)) => image::one_hot(p, &mode, Some((tp, 0))).image,
+                    None => return Ok(()),
+                }
+            },
+            None => image::one_hot(p, &mode, None).image,
+        };
+        if off + width > base.len() {
+            return Ok(());
+        }
+        let mut frame = base.clone();
+        frame[*off..off + width].copy_from_slice(&c.value.to_le_bytes()[..*width]);
+        let name = format!("{variant}.{}", image::generic_path(path));
+        let pkt = match decode_one(&frame, &mode) {
+            Ok(p) => p,
+            Err(e) => {
+                // the all-zero base itself must be acceptable, or this field is not one the sweep can judge
+                if decode_one(&base, &mode).is_err() {
+                    ev.class("base-frame-not-decodable: skipped");
+                    return Ok(());
+                }
+                fail!(format!("c02:decode:{name}"), "{name}: wire value {} ({width} bytes at offset {off}) makes the frame undecodable: {e}", c.value)
+            },
+        };
+        let back = encode_one(&pkt, &mode).map_err(|e| Fail::new(format!("c02:encode:{name}"), format!("{name}: wire value {} decodes to a packet that cannot be written: {e}", c.value)))?;
+        ensure!(
+            back == frame,
+            format!("c02:decode:{name}"),
+            "{name}: wire value {} ({width} bytes at offset {off}) is written back as {} (bytes {} -> {})",
+            c.value,
+            back.get(*off..off + width).map(|b| b.iter().rev().fold(0u64, |a, x| a << 8 | *x as u64).to_string()).unwrap_or("?".into()),
+            hex(&frame[..frame.len().min(32)]),
+            hex(&back[..back.len().min(32)])
+        );
+        ev.nontrivial_distinct();
+        if c.value % 4099 == 0 {
+            ev.class(&name);
+        }
+        Ok(())
+    }
+    fn to_json(&self, c: &IntCase) -> Value {
+        let f = &int_fields()[c.field];
+        json!({"field": format!("{}.{}", f.0, f.1), "compressed": c.compressed, "value": c.value})
+    }
+    fn from_json(&self, v: &Value) -> Option<IntCase> {
+        let name = v.get("field")?.as_str()?;
+        let field = int_fields().iter().position(|f| format!("{}.{}", f.0, f.1) == name)?;
+        Some(IntCase { field, compressed: v.get("compressed")?.as_bool()?, value: v.get("value")?.as_u64()? as u32 })
+    }
+}
+
+/// round 32-bit values and their neighbours
+pub fn round_u32() -> Vec<u32> {
+    let mut round: Vec<u64> = vec![];
+    for k in 0..=7200u64 {
+        round.push(k * 1000);
+        round.push(k * 100);
+    }
+    for k in 0..=1440u64 {
+        round.push(k * 60_000);
+        round.push(k * 6_000);
+    }
+    for k in 0..=1193u64 {
+        round.push(k * 3_600_000);
+        round.push(k * 360_000);
+    }
+    for e in 0..=9u32 {
+        for d in 1..=9u64 {
+            round.push(d * 10u64.pow(e));
+        }
+    }
+    for e in 0..=32u32 {
+        round.push(1u64 << e);
+        round.push((1u64 << e) * 3);
+    }
+    for k in 0..=255u64 {
+        round.push(k << 8);
+        round.push(k << 16);
+        round.push(k << 24);
+        round.push(0xffff_ff00 | k);
+        round.push(0x8000_0000u64.wrapping_sub(128) + k);
+    }
+    let mut v: Vec<u32> = round.iter().flat_map(|v| [v.saturating_sub(1), *v, v + 1]).filter(|v| *v <= 0xffff_ffff).map(|v| v as u32).collect();
+    v.sort();
+    v.dedup();
+    v
+}
+
 pub fn parts() -> Vec<Box<dyn DynPart>> {
-    vec![Box::new(OneHot), Box::new(RandomImages), Box::new(crate::props::c03::OneCodec("c02"))]
+    vec![Box::new(OneHot), Box::new(RandomImages), Box::new(crate::props::c03::OneCodec("c02")), Box::new(IntSweep)]
 }
 
 pub fn run(run: &mut Run) {
@@ -170,6 +326,32 @@ pub fn run(run: &mut Run) {
     run.enumerate(&OneHot, n, false, |i| Some(hot[i as usize].clone()));
     let n = run.budget(73 * 2 * 500, 73 * 2 * 20_000);
     run.prop(&RandomImages, tape_strategy(), n);
+    // every value of every plain integer / time field: 8 and 16 bits completely, 32 bits over round values
+    let fields = int_fields();
+    let r32 = round_u32();
+    let mut index: Vec<(usize, u64, u64)> = vec![]; // (field, first case index, number of values)
+    let mut total = 0u64;
+    for (i, f) in fields.iter().enumerate() {
+        let n = match f.3 {
+            1 => 256u64,
+            2 => 65_536,
+            _ => r32.len() as u64,
+        };
+        index.push((i, total, n));
+        total += n;
+    }
+    run.extra.insert("integer_fields_swept".into(), json!(fields.len()));
+    run.enumerate(&IntSweep, total, false, |i| {
+        let k = index.partition_point(|(_, first, _)| *first <= i) - 1;
+        let (field, first, _) = index[k];
+        let j = i - first;
+        let value = match fields[field].3 {
+            1 | 2 => j as u32,
+            _ => r32[j as usize],
+        };
+        // the two size modes alternate: the body of a frame does not depend on the mode
+        Some(IntCase { field, compressed: j % 2 == 0, value })
+    });
     // the layout must not depend on what the codec was asked to encode before (a connection keeps one codec): sequences with
     // refused packets among them, every frame compared with a fresh codec's
     let n = run.budget(30_000, 1_500_000);
